@@ -37,6 +37,7 @@ class Contract:
     hints: List[str] = dataclasses.field(default_factory=list)      # ground terms made available to matching
     uses_math: List[str] = dataclasses.field(default_factory=list)  # opt-in axioms for uninterpreted maths: "sqrt", "exp"
     reveal: List[str] = dataclasses.field(default_factory=list)     # opaque macros whose definition this proof may unfold
+    ghost_at: Dict[int, list] = dataclasses.field(default_factory=dict)  # ghost asserts / inductive lemmas before top-level statement i
     note: str = ""
     trusted: bool = False         # contract assumed, body not verified (external / out of subset)
     mode: str = "proof"           # "proof" (engine A) or "bounded" (engine C only; never counted as proved)
@@ -134,6 +135,17 @@ def macro(name, params, body, py=None, opaque=None):
 
 
 _loaded = False
+LOAD_ERRORS: Dict[str, str] = {}
+
+
+def load_errors_for(pid):
+    """load errors of sidecar modules that serve property `pid` (modules are named cNN_*.py; others serve all)"""
+    out = {}
+    for name, err in LOAD_ERRORS.items():
+        tag = name.split("_")[0].upper()
+        if not (tag.startswith("C") and tag[1:].isdigit()) or tag == pid:
+            out[name] = err
+    return out
 
 
 def load_all():
@@ -145,8 +157,13 @@ def load_all():
     if os.path.dirname(root) not in sys.path:
         sys.path.insert(0, os.path.dirname(root))
     import contracts  # noqa
+    import traceback
     for m in sorted(pkgutil.iter_modules([root])):
-        importlib.import_module("contracts." + m.name)
+        try:
+            importlib.import_module("contracts." + m.name)
+        except Exception:
+            # a broken sidecar must not take the other properties down; the properties it serves report CHECKER-ERROR
+            LOAD_ERRORS[m.name] = traceback.format_exc()
     _loaded = True
 
 
